@@ -186,7 +186,7 @@ func TestBoundedDominators(t *testing.T) {
 			}
 		}
 	}
-	seed := uint64(1181783497276652981)
+	seed := verifSeedC19(1181783497276652981)
 	next := func(m int) int {
 		seed ^= seed << 13
 		seed ^= seed >> 7
@@ -211,4 +211,16 @@ func TestBoundedDominators(t *testing.T) {
 		t.Fatalf("%d failures", nfail)
 	}
 	fmt.Printf("BOUNDED-OK cases=%d maxnodes=%d extra=%d\n", cases, maxN, extra)
+}
+
+// verifSeedC19 mixes VERIF_SEED (if set) into a generator's initial state, so that
+// different seeds explore different pseudo-random inputs; 0 keeps the default.
+func verifSeedC19(s uint64) uint64 {
+	if v, err := strconv.ParseUint(os.Getenv("VERIF_SEED"), 10, 64); err == nil && v != 0 {
+		s ^= v * 0x9E3779B97F4A7C15
+		if s == 0 {
+			s = 0x9E3779B97F4A7C15
+		}
+	}
+	return s
 }
